@@ -21,10 +21,15 @@ PadLeft(b, n)  == IF Len(b) >= n THEN b ELSE Zeros(n - Len(b)) \o b
 PadRight(b, n) == IF Len(b) >= n THEN b ELSE b \o Zeros(n - Len(b))
 IsByteSeq(b) == \A i \in 1..Len(b) : b[i] \in Byte
 
+\* Mat(s): the same sequence, materialised.  TLC represents [i \in 1..n |-> e(i)] lazily and
+\* re-evaluates e(i) on EVERY application and every Len; concatenating with <<>> forces it into a
+\* tuple once.  Use it wherever a constructed sequence is indexed more than once.
+Mat(s) == s \o <<>>
+
 \* Concatenation of a sequence of sequences.
-RECURSIVE ConcatFrom(_, _)
-ConcatFrom(ss, i) == IF i > Len(ss) THEN <<>> ELSE ss[i] \o ConcatFrom(ss, i + 1)
-Concat(ss) == ConcatFrom(ss, 1)
+RECURSIVE ConcatFrom(_, _, _)
+ConcatFrom(ss, n, i) == IF i > n THEN <<>> ELSE ss[i] \o ConcatFrom(ss, n, i + 1)
+Concat(ss) == LET t == Mat(ss) IN ConcatFrom(t, Len(t), 1)
 
 RECURSIVE SumLenFrom(_, _)
 SumLenFrom(ss, i) == IF i > Len(ss) THEN 0 ELSE Len(ss[i]) + SumLenFrom(ss, i + 1)
